@@ -58,6 +58,9 @@ def py_val(j):
     if t == "date":
         return datetime.date(*v)
     if t == "datetime":
+        if j.get("tz") is not None:
+            # an aware date-time (UTC offset in minutes): a TIMESTAMP value like any other; outside the model (oracle only)
+            return datetime.datetime(*v, tzinfo=datetime.timezone(datetime.timedelta(minutes=j["tz"])))
         return datetime.datetime(*v)
     if t == "list":
         return [py_val(x) for x in v]
@@ -106,7 +109,10 @@ def tag(v):
     if t is D:
         return {"t": "dec", "v": str(v)}
     if t is datetime.datetime:
-        return {"t": "datetime", "v": [v.year, v.month, v.day, v.hour, v.minute, v.second, v.microsecond]}
+        j = {"t": "datetime", "v": [v.year, v.month, v.day, v.hour, v.minute, v.second, v.microsecond]}
+        if v.tzinfo is not None:
+            j["tz"] = int(v.utcoffset().total_seconds() // 60)
+        return j
     if t is datetime.date:
         return {"t": "date", "v": [v.year, v.month, v.day]}
     if t is list:
@@ -1628,6 +1634,11 @@ def temporal_cases(ctx, n):
         dt0 = dt.replace(microsecond=0)
         yield case(["DATE"], dd, "identity on a typed value", dd)
         yield case(["TIMESTAMP"], dt, "identity on a typed value (whole seconds)", dt0)
+        if 2 <= y <= 9998 and rng.random() < 0.5:
+            # a date-time that carries a UTC offset is a TIMESTAMP value too: the cast returns an equal value (Python
+            # never calls a naive date-time equal to an aware one), of the same class, to whole seconds
+            aware = dt.replace(tzinfo=datetime.timezone(datetime.timedelta(minutes=rng.choice([0, 0, 60, -300, 330, 765, -719]))))
+            yield case(["TIMESTAMP"], aware, "identity on a typed value (whole seconds, aware date-time)", aware.replace(microsecond=0))
         iso = dd.isoformat()
         yield case(["DATE"], iso if rng.random() < 0.5 else iso.encode(), "date rendering", dd)
         sep = rng.choice("T ")
